@@ -114,6 +114,9 @@ Definition valid_civil (y m d h mi : Z) : bool :=
 Definition civil_us (y m d h mi : Z) : Z :=
   (((days_from_civil y m d * 24 + h) * 60 + mi) * 60000000)%Z.
 
+(* datetime.min = 0001-01-01T00:00, the validity start of a satellite block without VALID FROM *)
+Definition min_us : Q := inject_Z (civil_us 1 1 1 0 0).
+
 (* ====================================================================================== doubles
    round-to-nearest-even to 53 significant bits (normal range), used only by the quirk
    [zen_count_float] to reproduce numpy.arange's length computation exactly. *)
@@ -257,10 +260,12 @@ Record quirks := {
   azi_accumulates : bool;     (* c15_azi_accumulates: cache["azi"] is never reset between frequencies *)
   azi_strings : bool;         (* c15_azi_strings: the rows are kept as the split strings *)
   seconds_as_days : bool;     (* c15_seconds_as_days: timedelta(float(second)) adds days *)
-  zen_count_float : bool      (* c15_grid_count_float: numpy.arange length computed in binary floating point *)
+  zen_count_float : bool;     (* c15_grid_count_float: numpy.arange length computed in binary floating point *)
+  sat_from_required : bool    (* c15_sat_without_valid_from: a satellite block without VALID FROM fails (unbound local) *)
 }.
 Definition all_off : quirks :=
-  {| azi_accumulates := false; azi_strings := false; seconds_as_days := false; zen_count_float := false |}.
+  {| azi_accumulates := false; azi_strings := false; seconds_as_days := false; zen_count_float := false;
+     sat_from_required := false |}.
 
 (* ====================================================================================== grids (degrees) *)
 Definition grid_count (q : quirks) (start stop step : Q) : Z :=
@@ -358,7 +363,11 @@ Definition save_correction (q : quirks) (c : cache) (d : data) : res (cache * da
   let is_sat := negb (String.eqb sat "") in
   bind (need_s (if is_sat then "antenna_code" else "antenna_type") c) (fun ant =>
   bind (need_s "frequency_code" c) (fun freq =>
-  let dt := match cget "valid_from" c with Some (CT t) => Some t | _ => None end in
+  (* dt = cache.get("valid_from", datetime.min); with the quirk: unbound when the record is absent *)
+  let dt := match cget "valid_from" c with
+            | Some (CT t) => Some t
+            | _ => if sat_from_required q then None else Some min_us
+            end in
   match cget "num_freq_counter" c with
   | Some (CN counter) =>
     let first := (counter =? 0)%Z in
@@ -480,7 +489,8 @@ Record ant_m := {
   am_nfreq : string;
   am_from : option (list string);            (* year month day hour minute second, as printed *)
   am_until : option (list string);
-  am_freqs : list freq_m
+  am_freqs : list freq_m;
+  am_rms : list freq_m                       (* START OF FREQ RMS .. END OF FREQ RMS sections (never part of the result) *)
 }.
 
 Definition file_m := list ant_m.
@@ -503,6 +513,13 @@ Definition render_freq (f : freq_m) : list string :=
   ++ map (fun r => rjust 8 (fst r) ++ render_values (snd r)) (fm_rows f)
   ++ [ spaces 3 ++ ljust 3 (fm_code f) ++ spaces 54 ++ "END OF FREQUENCY" ].
 
+Definition render_rms (f : freq_m) : list string :=
+  [ spaces 3 ++ ljust 3 (fm_code f) ++ spaces 54 ++ "START OF FREQ RMS";
+    rjust 10 (fm_north f) ++ rjust 10 (fm_east f) ++ rjust 10 (fm_up f) ++ spaces 30 ++ "NORTH / EAST / UP";
+    "   NOAZI" ++ render_values (fm_noazi f) ]
+  ++ map (fun r => rjust 8 (fst r) ++ render_values (snd r)) (fm_rows f)
+  ++ [ spaces 3 ++ ljust 3 (fm_code f) ++ spaces 54 ++ "END OF FREQ RMS" ].
+
 Definition render_opt_valid (t : option (list string)) (label : string) : list string :=
   match t with Some t => [render_valid t label] | None => [] end.
 
@@ -516,7 +533,8 @@ Definition render_ant_head (a : ant_m) : list string :=
   ++ render_opt_valid (am_until a) "VALID UNTIL".
 
 Definition render_ant (a : ant_m) : list string :=
-  render_ant_head a ++ List.concat (map render_freq (am_freqs a)) ++ [ spaces 60 ++ "END OF ANTENNA" ].
+  render_ant_head a ++ List.concat (map render_freq (am_freqs a)) ++ List.concat (map render_rms (am_rms a))
+  ++ [ spaces 60 ++ "END OF ANTENNA" ].
 
 Definition render_body (m : file_m) : list string := List.concat (map render_ant m).
 
@@ -549,7 +567,7 @@ Definition expected_freq (f : freq_m) : string * fentry :=
 
 Definition expected_key (a : ant_m) : akey :=
   if String.eqb (am_sat a) "" then (am_type a, None)
-  else (am_serial a, match am_from a with Some t => Some (valid_us t) | None => None end).
+  else (am_serial a, Some (match am_from a with Some t => valid_us t | None => min_us end)).
 
 Definition expected_entry (a : ant_m) : entry :=
   {| en_sat := if String.eqb (am_sat a) "" then None
@@ -716,20 +734,21 @@ Definition match_res (p : parts) (now_lo now_hi : Z) (m : res data) (o : obs) : 
 (* ====================================================================================== checks *)
 Definition quirks_of_mask (k : Z) : quirks :=
   {| azi_accumulates := Z.testbit k 0; azi_strings := Z.testbit k 1;
-     seconds_as_days := Z.testbit k 2; zen_count_float := Z.testbit k 3 |}.
+     seconds_as_days := Z.testbit k 2; zen_count_float := Z.testbit k 3; sat_from_required := Z.testbit k 4 |}.
 
 Definition first_some (l : list (unit -> option Z)) : option Z :=
   fold_right (fun (f : unit -> option Z) acc => match f tt with Some k => Some k | None => acc end) None l.
 
 (* 0: the observation is what the specification model computes from the file's text;
    16 + mask: it is what the model computes with exactly the quirks of [mask] (bit 0 azi_accumulates, 1 azi_strings,
-   2 seconds_as_days, 3 zen_count_float), [mask] being the least explanation per component (dates, grids, patterns);
+   2 seconds_as_days, 3 zen_count_float, 4 sat_from_required - the failure hides all other components), [mask] being the least explanation per component (dates, grids, patterns);
    1: neither *)
 Definition check_with (tbl : table) (case : list string * (Z * Z) * obs) : Z :=
   let '(lines, (lo, hi), o) := case in
   let lx := map (prelex tbl) (after_header lines) in
   let r0 := parse_lexed all_off lx in
   if match_res P_all lo hi r0 o then 0%Z
+  else if match o with ObsErr _ => match_res P_all lo hi (parse_lexed (quirks_of_mask 16) lx) o | _ => false end then 32%Z
   else if negb (match_res P_rest lo hi r0 o) then 1%Z
   else
     let r13 := parse_lexed (quirks_of_mask 13) lx in
@@ -750,7 +769,8 @@ Definition check_with (tbl : table) (case : list string * (Z * Z) * obs) : Z :=
    disagree (harness defect);  2 = the table does not read the file into what it contains *)
 Definition core_labels : list string :=
   ["START OF ANTENNA"; "END OF ANTENNA"; "TYPE / SERIAL NO"; "DAZI"; "ZEN1 / ZEN2 / DZEN"; "# OF FREQUENCIES";
-   "VALID FROM"; "VALID UNTIL"; "START OF FREQUENCY"; "NORTH / EAST / UP"; "END OF FREQUENCY"; "CORRECTION"].
+   "VALID FROM"; "VALID UNTIL"; "START OF FREQUENCY"; "NORTH / EAST / UP"; "END OF FREQUENCY"; "CORRECTION";
+   "START OF FREQ RMS"; "END OF FREQ RMS"].
 
 Definition is_core (line : string) : bool :=
   negb (String.eqb line "") && existsb (String.eqb (label_of line)) core_labels.
@@ -786,6 +806,13 @@ Definition lex_freq (f : freq_m) : list lexed :=
   ++ map (fun r => ev "parse_correction" [("values", fst r ++ render_values (snd r))]) (fm_rows f)
   ++ [ ev "save_correction" [("frequency_code", fm_code f)] ].
 
+Definition lex_rms (f : freq_m) : list lexed :=
+  [ (None, false);
+    ev "parse_section_float" [("north", fm_north f); ("east", fm_east f); ("up", fm_up f)];
+    ev "parse_correction" [("values", "NOAZI" ++ render_values (fm_noazi f))] ]
+  ++ map (fun r => ev "parse_correction" [("values", fst r ++ render_values (snd r))]) (fm_rows f)
+  ++ [ (None, false) ].
+
 Definition lex_ant_head (a : ant_m) : list lexed :=
   [ (None, false);
     ev "parse_section_string" [("antenna_type", am_type a); ("antenna_code", am_serial a); ("sat_code", am_sat a);
@@ -797,7 +824,7 @@ Definition lex_ant_head (a : ant_m) : list lexed :=
   ++ lex_opt_valid (am_until a) "parse_valid_until".
 
 Definition lex_ant (a : ant_m) : list lexed :=
-  lex_ant_head a ++ List.concat (map lex_freq (am_freqs a)) ++ [ (None, true) ].
+  lex_ant_head a ++ List.concat (map lex_freq (am_freqs a)) ++ List.concat (map lex_rms (am_rms a)) ++ [ (None, true) ].
 
 Definition numch (c : ascii) : bool :=
   match digit_of c with Some _ => true | None => Ascii.eqb c "+" || Ascii.eqb c "-" || Ascii.eqb c "." end.
@@ -825,4 +852,39 @@ Definition wf_ant (a : ant_m) : bool :=
   fitsb 20 (am_type a) && fitsb 20 (am_serial a) && fitsb 10 (am_sat a) && fitsb 10 (am_cospar a)
   && numtok 6 (am_dazi a) && numtok 6 (am_zen1 a) && numtok 6 (am_zen2 a) && numtok 6 (am_dzen a)
   && numtok 6 (am_nfreq a) && wf_valid (am_from a) && wf_valid (am_until a)
-  && forallb wf_freq (am_freqs a).
+  && forallb wf_freq (am_freqs a) && forallb wf_freq (am_rms a).
+
+(* ====================================================================================== table coverage
+   When does another label/field table read rendered files like [std_table]?  (Proofs/C15_Covers.v) *)
+Definition slot_contains (g s : nat * option nat) : bool :=
+  Nat.leb (fst g) (fst s) &&
+  match snd g, snd s with
+  | None, None => true
+  | Some b', Some b => Nat.leb b b' && Nat.leb b' 60
+  | _, _ => false
+  end.
+
+Definition slot_disjoint (g s : nat * option nat) : bool :=
+  match snd g, snd s with
+  | Some b', Some b => Nat.leb b' (fst s) || Nat.leb b (fst g)
+  | None, Some b => Nat.leb b (fst g)
+  | Some b', None => Nat.leb b' (fst s)
+  | None, None => false
+  end.
+
+(* same field name; the slot contains the standard's columns of the field, ends before the label column, and touches
+   no other field of the record *)
+Definition field_covers (others : list fieldspec) (g s : fieldspec) : bool :=
+  String.eqb (fst g) (fst s) && slot_contains (snd g) (snd s)
+  && forallb (fun o => String.eqb (fst o) (fst s) || slot_disjoint (snd g) (snd o)) others.
+
+Definition fields_cover (gen std : list fieldspec) : bool := list_match (field_covers std) gen std.
+
+(* the same labels, the same parse methods, fields covering field by field (in column order) *)
+Definition table_covers (gen std : table) : bool :=
+  forallb (fun g => match assoc (fst g) std with Some _ => true | None => false end) gen
+  && forallb (fun s =>
+       match assoc (fst s) gen with
+       | None => false
+       | Some (pname, fields) => String.eqb pname (fst (snd s)) && fields_cover fields (snd (snd s))
+       end) std.
